@@ -190,7 +190,19 @@ def check_surface(case, ctx):
     # transpose: S'(u, v) = S(v, u)
     for inplace in (False, True):
         src = copy.deepcopy(s1)
+        # the directions are sampled differently: the sampling settings belong to the directions and change places with them
+        ssu, ssv = rng.sample([3, 4, 5, 6, 7], 2)
+        src.sample_size_u, src.sample_size_v = ssu, ssv
+        grid0 = [list(pt) for pt in src.evalpts]
         t = operations.transpose(src, inplace=inplace)
+        ctx.tag('transpose:sampling-per-direction')
+        grid1 = [list(pt) for pt in t.evalpts]
+        exp_grid = [grid0[j + ssv * i] for j in range(ssv) for i in range(ssu)] if len(grid0) == ssu * ssv else None
+        ctx.check(exp_grid is not None and len(grid1) == len(exp_grid) and (t.sample_size_u, t.sample_size_v) == (ssv, ssu) and
+                  all(close(a_, b_) for a_, b_ in zip(grid1, exp_grid)), 'transpose/sampling-not-swapped',
+                  'transpose of a surface sampled %d x %d: the result is sampled %r x %r and its sampled points are not the transposed '
+                  'grid of the input (the direction that was sampled %d times is now sampled %r times)'
+                  % (ssu, ssv, t.sample_size_u, t.sample_size_v, ssu, t.sample_size_v), what='transpose')
         St = reference((q, p), (V, U), (nv, nu), P, W, rational, perm=lambda t_: (t_[1], t_[0]))
         ctx.check(G.degrees_of(t) == [q, p] and G.sizes_of(t) == [nv, nu], 'route/transpose-structure',
                   'transpose: degrees %r sizes %r' % (G.degrees_of(t), G.sizes_of(t)), what='transpose')
